@@ -70,6 +70,9 @@ type hop19 struct {
 	Pass   string  `json:"pass,omitempty"`
 	Cookie *string `json:"cookie,omitempty"`
 	Dt     int64   `json:"dt,omitempty"`
+	// BodyName: the "name" member of the JSON body of PUT /users/{id} and PUT /shortcuts/{id}
+	// when it is to differ from the URL (nil = same as the URL; "<absent>" = no name member)
+	BodyName *string `json:"body_name,omitempty"`
 }
 
 type hist19 struct {
@@ -78,6 +81,7 @@ type hist19 struct {
 	Class string  `json:"class"`
 	// RestartAt >= 0: additionally run the history with a restart inserted before
 	// op RestartAt and compare the later replies (restart refinement on the implementation)
+	// RestartAt == -2: insert the restart right after the first operation during which a fault was delivered
 	RestartAt int `json:"restart_at"`
 }
 
@@ -113,7 +117,8 @@ type result19 struct {
 	Obs        []obs19 `json:"obs"`
 	ObsRestart []obs19 `json:"obs_restart,omitempty"` // replies from RestartAt on, in the run with the restart
 	StoreCalls int     `json:"store_calls"`
-	Dup        bool    `json:"dup"` // two stored service ids shared an entity ID at some point
+	RestartIdx int     `json:"restart_idx"` // index of the first op after the inserted restart
+	Dup        bool    `json:"dup"`         // two stored service ids shared an entity ID at some point
 }
 
 // ---------------------------------------------------------------------------
@@ -126,6 +131,7 @@ type faultStore struct {
 	plan    []int
 	pos     int
 	enabled bool
+	faulted bool // a fault has been delivered
 }
 
 func (f *faultStore) next() int {
@@ -137,6 +143,9 @@ func (f *faultStore) next() int {
 		x = f.plan[f.pos]
 	}
 	f.pos++
+	if x != 0 {
+		f.faulted = true
+	}
 	return x
 }
 func faultErr(x int) error {
@@ -208,8 +217,15 @@ func (w *world19) absID(r string) string {
 	return r
 }
 
-func profJSON(n string, pw *string, p *prof) string {
+func profJSON(n string, bodyName *string, pw *string, p *prof) string {
 	m := map[string]any{"name": n}
+	if bodyName != nil {
+		if *bodyName == "<absent>" {
+			delete(m, "name")
+		} else {
+			m["name"] = *bodyName
+		}
+	}
 	if pw != nil {
 		m["password"] = *pw
 	}
@@ -273,7 +289,7 @@ func (w *world19) exec(o hop19) obs19 {
 		w.srv = srv
 		return obs19{Body: "none"}
 	case "putuser":
-		q = reqSpec{method: "PUT", path: "/users/" + o.Name, body: profJSON(o.Name, o.PW, o.Prof)}
+		q = reqSpec{method: "PUT", path: "/users/" + o.Name, body: profJSON(o.Name, o.BodyName, o.PW, o.Prof)}
 	case "deluser":
 		q = reqSpec{method: "DELETE", path: "/users/" + o.Name}
 	case "getuser":
@@ -285,7 +301,11 @@ func (w *world19) exec(o hop19) obs19 {
 	case "delservice":
 		q = reqSpec{method: "DELETE", path: "/services/" + o.Name}
 	case "putshortcut":
-		q = reqSpec{method: "PUT", path: "/shortcuts/" + o.Name, body: `{"service_provider":` + jsonStr(o.SP) + `}`}
+		body := `{"service_provider":` + jsonStr(o.SP) + `}`
+		if o.BodyName != nil && *o.BodyName != "<absent>" {
+			body = `{"name":` + jsonStr(*o.BodyName) + `,"service_provider":` + jsonStr(o.SP) + `}`
+		}
+		q = reqSpec{method: "PUT", path: "/shortcuts/" + o.Name, body: body}
 	case "delshortcut":
 		q = reqSpec{method: "DELETE", path: "/shortcuts/" + o.Name}
 	case "login":
@@ -416,7 +436,7 @@ type seededReader struct{ r *rand.Rand }
 
 func (s seededReader) Read(p []byte) (int, error) { return s.r.Read(p) }
 
-func runHistory(h hist19, seed int64, restartAt int) ([]obs19, int, bool) {
+func runHistory(h hist19, seed int64, restartAt int) ([]obs19, int, bool, int) {
 	oldNow, oldRand := saml.TimeNow, saml.RandReader
 	defer func() { saml.TimeNow, saml.RandReader = oldNow, oldRand }()
 	w := &world19{fs: &faultStore{inner: &samlidp.MemoryStore{}, plan: h.Plan, enabled: true},
@@ -431,13 +451,17 @@ func runHistory(h hist19, seed int64, restartAt int) ([]obs19, int, bool) {
 	}
 	w.srv = srv
 	var out []obs19
+	firstFault := -1
 	for i, o := range h.Ops {
 		if i == restartAt {
 			w.exec(hop19{Kind: "restart"})
 		}
 		out = append(out, w.exec(o))
+		if w.fs.faulted && firstFault < 0 {
+			firstFault = i
+		}
 	}
-	return out, w.fs.pos, w.dup
+	return out, w.fs.pos, w.dup, firstFault
 }
 
 // ---------------------------------------------------------------------------
@@ -456,11 +480,15 @@ func runC19Child(c *Ctx) {
 	}
 	res := make([]result19, len(hs))
 	for i, h := range hs {
-		obs, calls, dup := runHistory(h, c.Seed+int64(i), -1)
-		res[i] = result19{Obs: obs, StoreCalls: calls, Dup: dup}
-		if h.RestartAt >= 0 && h.RestartAt <= len(h.Ops) {
-			obs2, _, _ := runHistory(h, c.Seed+int64(i), h.RestartAt)
-			res[i].ObsRestart = obs2
+		obs, calls, dup, firstFault := runHistory(h, c.Seed+int64(i), -1)
+		res[i] = result19{Obs: obs, StoreCalls: calls, Dup: dup, RestartIdx: -1}
+		at := h.RestartAt
+		if at == -2 && firstFault >= 0 {
+			at = firstFault + 1
+		}
+		if at >= 0 && at < len(h.Ops) {
+			obs2, _, _, _ := runHistory(h, c.Seed+int64(i), at)
+			res[i].ObsRestart, res[i].RestartIdx = obs2, at
 		}
 	}
 	ob, _ := json.Marshal(res)
@@ -588,6 +616,9 @@ func genHistory(r *rand.Rand, maxLen int, dupOK bool) hist19 {
 			u := pick(r, users19)
 			p := pick(r, profs19[u])
 			o = hop19{Kind: "putuser", Name: u, Prof: &p}
+			if r.Intn(4) == 0 { // the body names somebody else: the URL decides
+				o.BodyName = sp(pick(r, []string{"alice", "bob", "carol", "", "<absent>", "Alice"}))
+			}
 			if r.Intn(3) != 0 || x == 0 {
 				o.PW = sp(pick(r, []string{pw1, pw1, pw2, pwEmpty}))
 			}
@@ -612,6 +643,9 @@ func genHistory(r *rand.Rand, maxLen int, dupOK bool) hist19 {
 				tgt = pick(r, ms).Entity
 			}
 			o = hop19{Kind: "putshortcut", Name: pick(r, []string{"x", "x", "y"}), SP: tgt}
+			if r.Intn(5) == 0 {
+				o.BodyName = sp(pick(r, []string{"x", "y", "z", ""}))
+			}
 		case x < 41:
 			o = hop19{Kind: "delshortcut", Name: pick(r, []string{"x", "y"})}
 		case x < 50:
@@ -771,6 +805,19 @@ func directed19() []hist19 {
 	add("registration", putUser("alice", sp(pw1), 0), loginPw("alice", pw1), putSvc("b", md3), hop19{Kind: "putshortcut", Name: "y", SP: e3},
 		hop19{Kind: "putshortcut", Name: "x", SP: unknownSP}, launchCk("y", "S0"), ssoCookie(e3, "", "S0"), launchCk("x", "S0"), launchCk("z", "S0"),
 		hop19{Kind: "delshortcut", Name: "y"}, launchCk("y", "S0"))
+	// request bodies whose identity disagrees with the URL: the URL decides (user name, shortcut name)
+	named := func(o hop19, bn string) hop19 { o.BodyName = sp(bn); return o }
+	add("body_vs_url", putUser("alice", sp(pw1), 0), putSvc("a", md1), hop19{Kind: "putshortcut", Name: "x", SP: e1},
+		named(putUser("bob", sp(pw2), 0), "alice"), ssoPw(e1, acs1, "bob", pw2), loginPw("bob", pw2), ssoCookie(e1, acs1, "S0"),
+		ssoPw(e1, acs1, "alice", pw2), ssoPw(e1, acs1, "alice", pw1), hop19{Kind: "getuser", Name: "bob"}, hop19{Kind: "getuser", Name: "alice"},
+		hop19{Kind: "listusers"}, launchCk("x", "S1"), hop19{Kind: "getsess", Name: "S1"})
+	add("body_vs_url", putSvc("a", md1), named(putUser("bob", sp(pw2), 1), "carol"), named(putUser("alice", sp(pw1), 0), ""),
+		named(putUser("alice", nil, 1), "<absent>"), named(putUser("alice", nil, 0), "bob"), ssoPw(e1, "", "bob", pw2), ssoPw(e1, "", "carol", pw2),
+		ssoPw(e1, "", "alice", pw1), hop19{Kind: "listusers"}, hop19{Kind: "getuser", Name: "carol"}, hop19{Kind: "deluser", Name: "bob"},
+		ssoPw(e1, "", "bob", pw2), ssoPw(e1, "", "alice", pw1))
+	add("body_vs_url", putUser("alice", sp(pw1), 0), loginPw("alice", pw1), putSvc("a", md1), putSvc("b", md2),
+		named(hop19{Kind: "putshortcut", Name: "x", SP: e1}, "y"), named(hop19{Kind: "putshortcut", Name: "y", SP: e2}, "x"),
+		launchCk("x", "S0"), launchCk("y", "S0"), hop19{Kind: "delshortcut", Name: "y"}, launchCk("x", "S0"), launchCk("y", "S0"))
 	// restart at every position of a history that exercises the registry
 	base := []hop19{putUser("alice", sp(pw1), 0), loginPw("alice", pw1), putSvc("a", md1), putSvc("b", md2),
 		hop19{Kind: "putshortcut", Name: "x", SP: e2}, ssoCookie(e1, "", "S0"), putSvc("a", md1b), ssoCookie(e1, acs1, "S0"),
@@ -802,7 +849,7 @@ func faultSweep() []hist19 {
 			for kind := 1; kind <= 2; kind++ {
 				plan := make([]int, pos+1)
 				plan[pos] = kind
-				out = append(out, hist19{Ops: b, Plan: plan, Class: "single_fault", RestartAt: -1})
+				out = append(out, hist19{Ops: b, Plan: plan, Class: "single_fault", RestartAt: -2})
 			}
 		}
 	}
@@ -993,6 +1040,20 @@ func runC19(c *Ctx) {
 	dupOps := []hop19{putUser("alice", sp(pw1), 0), loginPw("alice", pw1), putSvc("a", md1), putSvc("b", md1b),
 		ssoCookie(e1, acs1b, "S0"), {Kind: "delservice", Name: "a"}, ssoCookie(e1, acs1b, "S0"), ssoCookie(e1, "", "S0")}
 	hs = append(hs, hist19{Ops: dupOps, Class: "duplicate_entity", RestartAt: 6})
+	// a store fault on the Put / Delete of a service (5xx, store unchanged): the running server must
+	// keep answering as a server restarted over the same store would
+	for kind := 1; kind <= 2; kind++ {
+		hs = append(hs,
+			hist19{Ops: []hop19{putUser("alice", sp(pw1), 0), loginPw("alice", pw1), putSvc("a", md1), {Kind: "putshortcut", Name: "x", SP: e1},
+				{Kind: "delservice", Name: "a"}, ssoCookie(e1, acs1, "S0"), launchCk("x", "S0"), {Kind: "delservice", Name: "a"}, ssoCookie(e1, acs1, "S0")},
+				Plan: []int{0, 0, 0, 0, 0, 0, 0, kind}, Class: "faulted_service_write", RestartAt: -2},
+			hist19{Ops: []hop19{putUser("alice", sp(pw1), 0), loginPw("alice", pw1), putSvc("a", md1), putSvc("a", md2),
+				ssoCookie(e1, acs1, "S0"), ssoCookie(e2, acs2, "S0"), putSvc("b", md2), ssoCookie(e2, acs2, "S0")},
+				Plan: []int{0, 0, 0, 0, 0, 0, kind}, Class: "faulted_service_write", RestartAt: -2},
+			hist19{Ops: []hop19{putUser("alice", sp(pw1), 0), loginPw("alice", pw1), putSvc("a", md1),
+				ssoCookie(e1, acs1, "S0"), {Kind: "delservice", Name: "a"}, ssoCookie(e1, acs1, "S0")},
+				Plan: []int{0, 0, 0, 0, kind}, Class: "faulted_service_write", RestartAt: -2})
+	}
 	// regression for fix F16: a store error on the previous-service lookup of PUT /services/{id}
 	// must fail the request (it used to leave the replaced entity ID registered until restart)
 	for kind := 1; kind <= 2; kind++ {
@@ -1067,15 +1128,15 @@ func runC19(c *Ctx) {
 			cs.Note = "handler panicked: " + panicked
 		}
 		c.Add(g, cs)
-		if h.RestartAt >= 0 && r.ObsRestart != nil {
+		if r.RestartIdx >= 0 && r.ObsRestart != nil {
 			var a, b []string
-			for j := h.RestartAt; j < len(h.Ops); j++ {
+			for j := r.RestartIdx; j < len(h.Ops); j++ {
 				a = append(a, obsTerm(r.Obs[j]))
 				b = append(b, obsTerm(r.ObsRestart[j]))
 			}
 			c.Count("restart_refinement/compared")
-			c.Add(gr, &Case{Key: key, Input: map[string]any{"ops": h.Ops, "fault_plan": h.Plan, "restart_inserted_before_op": h.RestartAt},
-				Obs:  map[string]any{"original_tail": r.Obs[h.RestartAt:], "restarted_tail": r.ObsRestart[h.RestartAt:]},
+			c.Add(gr, &Case{Key: key, Input: map[string]any{"ops": h.Ops, "fault_plan": h.Plan, "restart_inserted_before_op": r.RestartIdx},
+				Obs:  map[string]any{"original_tail": r.Obs[r.RestartIdx:], "restarted_tail": r.ObsRestart[r.RestartIdx:]},
 				Term: fmt.Sprintf("{| rc_obs_orig := %s; rc_obs_restarted := %s |}", emit.List(a), emit.List(b))})
 		}
 	}
